@@ -467,16 +467,54 @@ example :
 because the template's gqlparser import is called `ast`, `mrand "math/rand"` because `"crypto/rand"` came first - the
 copied bodies then refer to undefined identifiers; un-aliased imports behave as before. -/
 theorem collision_on_package_name_drops_aliased_import_witness :
-    reserve1With .name ambient ⟨"goast", "go/ast", "ast"⟩ = ambient ∧
-    (([⟨"", "crypto/rand", "rand"⟩, ⟨"mrand", "math/rand", "rand"⟩] : List Import).foldl (reserve1With .name) ambient).all
+    reserve1With .name ["_", "."] ambient ⟨"goast", "go/ast", "ast"⟩ = ambient ∧
+    (([⟨"", "crypto/rand", "rand"⟩, ⟨"mrand", "math/rand", "rand"⟩] : List Import).foldl (reserve1With .name ["_", "."]) ambient).all
       (fun j => j.path != "math/rand") = true ∧
-    (([⟨"", "crypto/rand", "rand"⟩, ⟨"mrand", "math/rand", "rand"⟩] : List Import).foldl (reserve1With .alias) ambient).any
+    (([⟨"", "crypto/rand", "rand"⟩, ⟨"mrand", "math/rand", "rand"⟩] : List Import).foldl (reserve1With .alias ["_", "."]) ambient).any
       (fun j => j.path == "math/rand" && j.alias == "mrand") = true := by decide
 
-/-- F19h: `_ "embed"` + `_ "image/png"` — imports that bind no name are reserved as if they all claimed the alias `_`;
-the second one is dropped (likewise two dot imports). -/
+/-- What `fix:` 0731d3e repaired (F19h): `_ "embed"` + `_ "image/png"` — with the OLD shape of `Reserve` (collision test
+unconditional, `collisionExempt = []`) imports that bind no name were reserved as if they all claimed the alias `_`, and
+the second one was dropped (likewise two dot imports); with the test guarded by `alias != "_" && alias != "."` both are
+reserved, next to a dot import and a second dot import. -/
 theorem second_blank_import_dropped_witness :
-    ∀ j ∈ reserve [⟨"_", "embed", "embed"⟩, ⟨"_", "image/png", "png"⟩], j.path ≠ "image/png" := by decide
+    (∀ j ∈ ([⟨"_", "embed", "embed"⟩, ⟨"_", "image/png", "png"⟩] : List Import).foldl (reserve1With .alias []) ambient,
+      j.path ≠ "image/png") ∧
+    (∀ j ∈ ([⟨".", "math", "math"⟩, ⟨".", "strings", "strings"⟩] : List Import).foldl (reserve1With .alias []) ambient,
+      j.path ≠ "strings") ∧
+    (([⟨"_", "embed", "embed"⟩, ⟨".", "math", "math"⟩, ⟨"_", "image/png", "png"⟩, ⟨".", "strings", "strings"⟩] : List Import).foldl
+      (reserve1With .alias ["_", "."]) ambient).map (·.path) =
+      ambient.map (·.path) ++ ["embed", "math", "image/png", "strings"] := by decide
+
+/-- **blank_and_dot_imports_kept.** With the facts in the source today (`collisionExempt`, regenerated): every blank
+(`_ "p"`) and every dot (`. "p"`) import of the user's file whose path is not imported a second time (by the template or
+by the file: F19b / F19i are about that) is written again under `_` / `.` and survives pruning - however many other blank
+/ dot imports the file has, whatever names are taken, whatever the code mentions. No hypothesis on the other imports'
+aliases. With the unconditional collision test (`collisionExempt = []`, the source before 0731d3e) `hex` does not close. -/
+theorem blank_and_dot_imports_kept (user : List Import) (hnp : (user.map (·.path)).Nodup)
+    (i : Import) (hi : i ∈ user) (hb : i.alias = "_" ∨ i.alias = ".") (hpkg : i.pkg ≠ "")
+    (hfp : ∀ a ∈ ambient, a.path ≠ i.path) (used : List String) :
+    ∃ j ∈ prune used (reserve user), j.path = i.path ∧ printedLocal j = i.alias := by
+  have hl : userLocal i = i.alias := by rcases hb with h | h <;> simp [userLocal, h]
+  have hex : GqlgenVerif.Gen.ReserveFacts.collisionExempt.contains (userLocal i) = true := by
+    rw [hl]; rcases hb with h | h <;> rw [h] <;> decide
+  have hmem := reserve_keeps_exempt user hnp i hi hfp hex
+  have hpl := printedLocal_reservedOf i hpkg
+  rw [hl] at hpl
+  refine ⟨reservedOf i, ?_, rfl, hpl⟩
+  unfold prune
+  rw [List.mem_filter]
+  refine ⟨hmem, ?_⟩
+  simp only [hpl]
+  rcases hb with h | h <;> simp [h]
+
+/-- every blank / dot import of a file with several of them is kept (the directed cases `import-two-blank`,
+`import-blank-of-reserved-name`): the hypotheses of `blank_and_dot_imports_kept` hold for each -/
+example :
+    let user : List Import := [⟨"_", "embed", "embed"⟩, ⟨"_", "image/png", "png"⟩, ⟨".", "math", "math"⟩,
+      ⟨"_", "github.com/pkg/errors", "errors"⟩, ⟨".", "strings", "strings"⟩]
+    (user.map (·.path)).Nodup ∧ (∀ i ∈ user, (i.alias = "_" ∨ i.alias = ".") ∧ i.pkg ≠ "" ∧ ∀ a ∈ ambient, a.path ≠ i.path) ∧
+    (prune [] (reserve user)).map (fun j => (printedLocal j, j.path)) = user.map (fun i => (i.alias, i.path)) := by decide
 
 /-- F19i: `"os"` + `xos "os"` (valid Go, both names used) — the path is already reserved, no import binding `xos` is written. -/
 theorem same_path_twice_witness :
